@@ -331,48 +331,82 @@ bool dispatch_kind(std::string const& kind, unsigned w, std::vector<Op> const& o
 
 #define WIDTHS(X) X(1) X(7) X(8) X(9) X(31) X(32) X(33) X(63) X(64) X(65) X(127) X(128) X(129)
 
-// The same classes under constant evaluation (count() then runs detail::popcount_fallback):
-// a fixed script per width, checked by the compiler.
+// The same classes under constant evaluation (count() then runs detail::popcount_fallback): two
+// fixed scripts (Ops.v: ct_ops / ct_str_ops), evaluated by the compiler for the etl classes and at
+// run time for std::bitset; op "ct" prints the results.
 template <typename T, std::size_t B>
 constexpr bool ct_script()
 {
-    T b{};
-    if (!b.none() || b.any() || b.all() || b.count() != 0) { return false; }
-    b.set();
-    if (!b.all() || b.count() != B) { return false; }
-    b.flip();
-    if (!b.none()) { return false; }
-    b.flip();   // all ones again, this time through flip(): the padding must have been re-masked
-    if (!b.all() || b.count() != B) { return false; }
-    T c(0x8000000000000001ULL);
+    T cur{};
+    T oth{};
     auto const expect = B >= 64 ? std::size_t{2} : std::size_t{1};
-    if (c.count() != expect || !c[0] || c.all() != (B == 1)) { return false; }
-    c ^= b;     // complement
-    if (c.count() != B - expect || c == b) { return false; }
-    c[B - 1] = true;
-    c[0].flip();
-    c |= b;
-    return c == b && c.all() && (c & b).count() == B;
+    cur.set();
+    if (!(cur.all() && cur.count() == B)) { return false; }
+    cur.flip();
+    if (!cur.none()) { return false; }
+    cur.flip();   // all ones again, this time through flip(): the padding must have been re-masked
+    if (!(cur.all() && cur.count() == B)) { return false; }
+    { T t = cur; cur = oth; oth = t; }
+    if (!cur.none()) { return false; }
+    cur = T(0x8000000000000001ULL);
+    if (cur.count() != expect) { return false; }
+    cur ^= oth;   // complement
+    if (cur.count() != B - expect || cur == oth) { return false; }
+    cur[B - 1] = true;
+    cur[0].flip();
+    cur |= oth;
+    if (!(cur == oth) || !cur.all()) { return false; }
+    cur = cur & oth;
+    return cur.count() == B;
 }
 template <std::size_t B>
-constexpr bool ct_strings()
+constexpr bool ct_strings_etl()
 {
-    etl::bitset<B> s("10");                       // B == 1: only the first character is used
-    if (s.count() != 1 || !s.test(B >= 2 ? 1 : 0)) { return false; }
-    auto const t = (~s).template to_string<B>('o', 'x');
-    if (t.size() != B || t[B - 1] != (B >= 2 ? 'x' : 'o')) { return false; }
+    etl::bitset<B> s("10");   // B == 1: only the first character is used
+    if (s.count() != 1) { return false; }
     if constexpr (B <= 64) {
         if (s.to_ullong() != (B >= 2 ? 2U : 1U)) { return false; }
     }
+    auto const p = B >= 2 ? std::size_t{1} : std::size_t{0};
+    if (!(s.test(p) && std::as_const(s)[p] && static_cast<bool>(s[p]) && !(~s[p]))) { return false; }
+    auto const t = (~s).template to_string<B>();
+    return t.size() == B && t[B - 1] == (B >= 2 ? '1' : '0');
+}
+template <std::size_t B>
+bool ct_strings_std()
+{
+    std::bitset<B> s(std::string("10"));
+    if (s.count() != 1) { return false; }
+    if constexpr (B <= 64) {
+        if (s.to_ullong() != (B >= 2 ? 2U : 1U)) { return false; }
+    }
+    auto const p = B >= 2 ? std::size_t{1} : std::size_t{0};
+    if (!(s.test(p) && std::as_const(s)[p] && static_cast<bool>(s[p]) && !(~s[p]))) { return false; }
+    auto const t = (~s).to_string();
+    return t.size() == B && t[B - 1] == (B >= 2 ? '1' : '0');
+}
+
+template <std::size_t B>
+bool run_ct(std::string const& kind, unsigned w, Out& impl, Out& ref)
+{
+    if (kind == "bs" && w == 64) {
+        constexpr bool a = ct_script<etl::bitset<B>, B>();
+        constexpr bool b = ct_strings_etl<B>();
+        impl.b(a).b(b);
+        ref.b(ct_script<std::bitset<B>, B>()).b(ct_strings_std<B>());
+        return true;
+    }
+    if (kind != "bb") { return false; }
+    bool r = false;
+    if (w == 8) { constexpr bool a = ct_script<etl::basic_bitset<B, std::uint8_t>, B>(); r = a; }
+    else if (w == 16) { constexpr bool a = ct_script<etl::basic_bitset<B, std::uint16_t>, B>(); r = a; }
+    else if (w == 32) { constexpr bool a = ct_script<etl::basic_bitset<B, std::uint32_t>, B>(); r = a; }
+    else if (w == 64) { constexpr bool a = ct_script<etl::basic_bitset<B, std::uint64_t>, B>(); r = a; }
+    else { return false; }
+    impl.b(r);
+    ref.b(ct_script<std::bitset<B>, B>());
     return true;
 }
-#define X(Bv)                                                                                                        \
-    static_assert(ct_script<etl::bitset<Bv>, Bv>());                                                                 \
-    static_assert(ct_script<etl::basic_bitset<Bv, std::uint8_t>, Bv>());                                             \
-    static_assert(ct_script<etl::basic_bitset<Bv, std::uint32_t>, Bv>());                                            \
-    static_assert(ct_strings<Bv>());
-WIDTHS(X)
-#undef X
 
 template <typename S>
 void codes(Out& o, S const& s)
@@ -416,6 +450,17 @@ bool vh::run_case(std::string const& op, Toks& in, Out& impl, Out& ref)
         bool words = op == "words";
         switch (bits) {
 #define X(Bv) case Bv: return dispatch_kind<Bv>(kind, w, ops, impl, ref, words);
+            WIDTHS(X)
+#undef X
+        default: return false;
+        }
+    }
+    if (op == "ct") {
+        auto kind = in.str();
+        auto w    = static_cast<unsigned>(in.num());
+        auto bits = in.num();
+        switch (bits) {
+#define X(Bv) case Bv: return run_ct<Bv>(kind, w, impl, ref);
             WIDTHS(X)
 #undef X
         default: return false;
